@@ -25,6 +25,8 @@ struct State {
     std::function<void(void *)> on_free;     // called for every free of a live pointer (before release)
     bool misaligned = false;                 // hand out 16- but not 32-byte aligned blocks
     long fail_at = -1;                       // allocation index that returns NULL (-1: never)
+    void *last_alloc = nullptr;              // most recent pointer handed out
+    size_t last_alloc_size = 0;
 };
 
 inline State &st() { static State s; return s; }
@@ -42,7 +44,7 @@ inline void *raw_alloc(size_t sz, bool zero) {
     } else {
         p = zero ? calloc(1, sz ? sz : 1) : malloc(sz ? sz : 1);
     }
-    if (p) { s.live[p] = Info{sz, s.serial++}; s.n_alloc++; }
+    if (p) { s.live[p] = Info{sz, s.serial++}; s.n_alloc++; s.last_alloc = p; s.last_alloc_size = sz; }
     return p;
 }
 
